@@ -259,6 +259,7 @@ class Engine:
             self.pc.append(zbool(self.spec(r)) if isinstance(r, str) else r)
         self.old_env = clone_env(env)
         fn = self.fn
+        self.post_scope = set(env)        # the contract's own environment: parameters (+ hidden model objects)
         try:
             self.exec_block(fn.body)
             outcome, value = 'return', None
@@ -270,6 +271,7 @@ class Engine:
             seq_src = Source.get(self.repo, c.sequel['file'] if 'file' in c.sequel else c.file)
             fn2 = seq_src.find(c.sequel['qual'])
             self.env = c.sequel['env'](self, self.env, value)
+            self.post_scope |= set(self.env)
             saved_fn, saved_src = self.fn, self.src
             self.fn, self.src = fn2, seq_src
             try:
@@ -294,26 +296,26 @@ class Engine:
             for term, ghost in c.exports.items():
                 self.pc.append(zint(self.spec(term, use_old=True)) == zint(self.spec(ghost)))
             for exc, (must, may) in c.raises_bounds.items():
-                self.oblige('raises', f'{exc}.must', z3.Not(zbool(self.spec(must, use_old=True))))
+                self.oblige('raises', f'{exc}.must', z3.Not(zbool(self.spec(must, use_old=True, params_only=True))))
             # "E is raised iff cond": on a normal return no declared raise-condition may hold
             for exc, cond in c.raises.items():
                 if cond is not None:
-                    self.oblige('raises', f'{exc}.only_if', z3.Not(zbool(self.spec(cond, use_old=True))))
+                    self.oblige('raises', f'{exc}.only_if', z3.Not(zbool(self.spec(cond, use_old=True, params_only=True))))
             for label, p in c.ens():
-                goal = zbool(self.spec(p, {'result': value}))
+                goal = zbool(self.spec(p, {'result': value}, params_only=True))
                 if label in c.regions:
-                    goal = z3.Implies(zbool(self.spec(c.regions[label], {'result': value}, use_old=True)), goal)
+                    goal = z3.Implies(zbool(self.spec(c.regions[label], {'result': value}, use_old=True, params_only=True)), goal)
                 self.oblige('post', label, goal)
             for i, p in enumerate(c.canaries):
-                self.oblige('canary', str(i), zbool(self.spec(p, {'result': value})))
+                self.oblige('canary', str(i), zbool(self.spec(p, {'result': value}, params_only=True)))
             self.frame_obligations(c)
         else:
             if value in c.raises_bounds:
-                self.oblige('raises', f'{value}.may', zbool(self.spec(c.raises_bounds[value][1], use_old=True)))
+                self.oblige('raises', f'{value}.may', zbool(self.spec(c.raises_bounds[value][1], use_old=True, params_only=True)))
             elif value in c.raises:
                 cond = c.raises[value]
                 if cond is not None:
-                    self.oblige('raises', f'{value}.if', zbool(self.spec(cond, use_old=True)))
+                    self.oblige('raises', f'{value}.if', zbool(self.spec(cond, use_old=True, params_only=True)))
                 for label, p in c.post_on_raise.get(value, []):
                     self.oblige('post_on_raise', f'{value}.{label}', zbool(self.spec(p)))
             else:
@@ -442,11 +444,15 @@ class Engine:
         return pick
 
     # ------------------------------------------------------------------ specification expressions
-    def spec(self, text, extra=None, use_old=False):
-        """Evaluate a contract clause (a Python expression string) over the current state."""
+    def spec(self, text, extra=None, use_old=False, params_only=False):
+        """Evaluate a contract clause (a Python expression string) over the current state.
+        params_only: pre/postconditions see the parameters, ghosts and the specification vocabulary - never the
+        function's local variables (a local that happens to share a name with a spec constant must not capture it)."""
         e = ast.parse(text.strip(), mode='eval').body
         saved = self.env
         frame = dict(self.old_env if use_old else self.env)
+        if params_only:
+            frame = {k: v for k, v in frame.items() if k in self.post_scope or k.startswith('__')}
         frame.update(self.ghost_env)
         if extra:
             frame.update(extra)
@@ -2053,7 +2059,10 @@ class Engine:
             if ftxt == 'binascii.a2b_hex':
                 return bm.a2b_hex(self, args[0])
             if ftxt == 'SHA256.new':
-                return bm.ShaModel()
+                h = bm.ShaModel()
+                if args:
+                    h.method(self, 'update', [args[0]], {}, e)
+                return h
             return bm.AesModel(args[0])
         if ftxt in ('struct.pack', 'struct.unpack'):
             from .models import trace as tr
